@@ -71,6 +71,26 @@ Theorem C11_npv_price_strict_cooling : forall (r : Q) (c : cf_in) (pC pC' : list
 Proof. exact npv_strict_in_cooling_price. Qed.
 Print Assumptions C11_npv_price_strict_cooling.
 
+(* co-generation sells electricity and heat: a strictly higher price of either product in one year where it is sold,
+   with no price of the other product falling, raises NPV strictly *)
+Theorem C11_npv_price_strict_cogen_elec : forall (r : Q) (c : cf_in) (pE pE' pH pH' : list Q), 0 < 1 + r ->
+  ci_kind c = KCogen -> nonneg (ci_eE c) -> nonneg (ci_eH c) -> Forall2 Qle pE pE' -> Forall2 Qle pH pH' ->
+  (length (ci_eE c) <= length (ci_eH c))%nat -> (length (ci_eE c) <= length pH)%nat ->
+  (ci_carbon c = true -> (length (ci_eE c) <= length (ci_pCarb c))%nat) ->
+  (exists j, 0 < nth j (ci_eE c) 0 /\ nth j pE 0 < nth j pE' 0 /\ (j < length (ci_eE c))%nat /\ (j < length pE)%nat) ->
+  npv r (total_cashflow (with_prices c pE pH (ci_pC c))) < npv r (total_cashflow (with_prices c pE' pH' (ci_pC c))).
+Proof. exact npv_strict_in_cogen_electricity_price. Qed.
+Print Assumptions C11_npv_price_strict_cogen_elec.
+
+Theorem C11_npv_price_strict_cogen_heat : forall (r : Q) (c : cf_in) (pE pE' pH pH' : list Q), 0 < 1 + r ->
+  ci_kind c = KCogen -> nonneg (ci_eE c) -> nonneg (ci_eH c) -> Forall2 Qle pE pE' -> Forall2 Qle pH pH' ->
+  (length (ci_eH c) <= length (ci_eE c))%nat -> (length (ci_eH c) <= length pE)%nat ->
+  (ci_carbon c = true -> (length (ci_eH c) <= length (ci_pCarb c))%nat) ->
+  (exists j, 0 < nth j (ci_eH c) 0 /\ nth j pH 0 < nth j pH' 0 /\ (j < length (ci_eH c))%nat /\ (j < length pH)%nat) ->
+  npv r (total_cashflow (with_prices c pE pH (ci_pC c))) < npv r (total_cashflow (with_prices c pE' pH' (ci_pC c))).
+Proof. exact npv_strict_in_cogen_heat_price. Qed.
+Print Assumptions C11_npv_price_strict_cogen_heat.
+
 (* a zero-rate tax credit, zero fees, zero incentives and a zero grant leave capital cost unchanged *)
 Theorem C11_neutral_adjustments : forall k : cost_in,
   k_ritc k == 0 -> k_flat k == 0 -> k_other k == 0 -> k_grant k == 0 -> ccap k == ccap_pre k.
